@@ -323,9 +323,10 @@ def handle (M : Mode R) (s : State R) (j : Json) : Except String (State R × Jso
       let outs ← c.denote A θ
       let S := sumFunctional A c.domains (← getQuad M j)
       let res := (rows.zip masks).map fun (row, mask) =>
+        -- `maskedEval` computed through theorem C11.maskedEval_eq_integ: masked evaluation = evaluation
+        -- of the circuit with the masked variables integrated out (vectorised evaluator, linear cost)
         Json.arr (outs.toArray.map fun n =>
-          Json.arr ((Array.range n.units).map fun i =>
-            Json.str (A.show_ (n.maskedEval A.toOps S (fun v => mask.contains v) (rowFn A row) i))))
+          showArr A ((n.integ S (mask.eraseDups)).evalV A.toOps (rowFn A row)))
       pure (s, Json.mkObj [("ok", Json.arr res.toArray)])
   | "param" => do
       let e ← parsePExpr M (← j.getObjVal? "expr")
